@@ -238,7 +238,8 @@ vnacal_new_parameter_t *_vnacal_new_get_parameter(const char *function,
     /*
      * Search for the parameter in the hash and return if found.
      */
-    if ((vnprp = hash_lookup(vnphp, parameter)) != NULL) {
+    if (parameter >= 0 &&
+	    (vnprp = hash_lookup(vnphp, parameter)) != NULL) {
 	return vnprp;
     }
 
